@@ -86,6 +86,16 @@ func (n *vNet[U, D]) unmarshallable(m any) error {
 	return n.brokeErr
 }
 
+// fail: the transport under the carrier stream goes away - every later Send fails, both Recv end with an error
+func (n *vNet[U, D]) fail() {
+	if n.brokeErr == nil {
+		n.failSend = true
+		n.brokeErr = status.Error(codes.Unavailable, "transport is closing")
+		close(n.broken)
+		n.scancel()
+	}
+}
+
 // finish: the network server's handler returned err
 func (n *vNet[U, D]) finish(err error) {
 	n.srvErr = err
@@ -218,6 +228,8 @@ func (e *vNetSrv[U, D]) Recv() (*U, error) {
 			return m, nil
 		}
 		return nil, io.EOF
+	case <-e.n.broken:
+		return nil, e.n.brokeErr
 	case <-e.n.sctx.Done():
 		return nil, status.FromContextError(e.n.sctx.Err()).Err()
 	}
@@ -718,11 +730,12 @@ func verifH_E2E() {
 		}
 	}
 	// event: 0 the RPC runs to completion, 1 the caller cancels, 2 the tunnel is closed under it,
-	// 3 graceful shutdown is initiated while the RPC is in flight (it must not change the RPC's outcome)
+	// 3 graceful shutdown is initiated while the RPC is in flight (it must not change the RPC's outcome),
+	// 4 the carrier stream fails under it (the transport goes away)
 	event, when := 0, 0
 	var interleave [4]bool // the peer gets to run between the application's operations, or not
 	if inG(2) {
-		event = 1 + verifChoice("event", 2)
+		event = []int{1, 2, 4}[verifChoice("event", 3)]
 		when = verifChoice("when", 3) // 0 right after the RPC was started, 1 after the requests, 2 after the half-close
 		switch verifParam("ilv") {
 		case 4:
@@ -815,6 +828,12 @@ func verifH_E2E() {
 				cancel()
 			case 2:
 				tch.Close()
+			case 4:
+				if reverse {
+					stub.rev.fail()
+				} else {
+					stub.fwd.fail()
+				}
 			case 3:
 				// the RPC is in flight on both ends (the peer has come to rest: the handler is running) ...
 				verifDrain()
@@ -932,6 +951,9 @@ afterCall:
 		} else if event == 1 {
 			verifCover("e2e-cancelled")
 			verifAssert(code == codes.Canceled, "C07.e2e-cancelled-call-ends-with-canceled")
+		} else if event == 4 {
+			verifCover("e2e-carrier-failed-under-the-call")
+			verifAssert(final != nil && final != io.EOF, "C04.e2e-call-on-a-failed-tunnel-ends-non-ok")
 		} else {
 			verifCover("e2e-tunnel-closed-under-the-call")
 			verifAssert(final != nil && final != io.EOF, "C04.e2e-call-on-a-closed-tunnel-ends-non-ok")
@@ -1013,7 +1035,7 @@ afterCall:
 		verifAssert(vSameMD(tlrT, wantTlr), tlrID)
 	}
 	// (a call refused because the tunnel was already closed never had a tunnel)
-	verifAssert(usedCh == tch || (event == 2 && usedCh == nil && len(app.calls) == 0), "C17.e2e-with-tunnel-channel-names-the-tunnel")
+	verifAssert(usedCh == tch || ((event == 2 || event == 4) && usedCh == nil && len(app.calls) == 0), "C17.e2e-with-tunnel-channel-names-the-tunnel")
 
 	// ---- C14: the finished RPC left nothing behind (unless the tunnel itself was closed under it)
 	srvSide := func() int {
@@ -1023,7 +1045,7 @@ afterCall:
 		return 0
 	}
 	_ = srvSide
-	if event != 2 {
+	if event != 2 && event != 4 {
 		c.mu.RLock()
 		nstreams := len(c.streams)
 		c.mu.RUnlock()
@@ -1052,7 +1074,7 @@ afterCall:
 
 	// ---- the tunnel ends
 	switch {
-	case event == 2:
+	case event == 2 || event == 4:
 	case ending == 0:
 		tch.Close()
 	case ending == 1:
@@ -1073,11 +1095,16 @@ afterCall:
 		}
 		verifAssert(serveDone && serveStarted, "C04.e2e-serve-returned")
 		verifAssert(len(h.AllReverseTunnels()) == 0 && !h.AsChannel().Ready(), "C12+C14.e2e-registry-empty-after-the-tunnel-ended")
-		if event != 2 && ending != 1 {
+		if event != 2 && event != 4 && ending != 1 {
 			verifAssert(serveErr == nil, "C04.e2e-serve-ends-cleanly")
 		}
+		if event == 4 {
+			verifAssert(serveErr != nil, "C04.e2e-serve-reports-the-carrier-failure")
+		}
 	}
-	if event == 2 || ending != 1 {
+	if event == 4 {
+		verifAssert(c.Err() != nil, "C04.e2e-err-is-the-cause-after-the-carrier-failed")
+	} else if event == 2 || ending != 1 {
 		verifAssert(c.Err() == nil, "C04.e2e-err-nil-after-a-clean-close")
 	} else {
 		verifAssert(c.Err() != nil, "C04.e2e-err-is-the-cause-after-the-opening-context-ended")
@@ -1089,9 +1116,9 @@ afterCall:
 	// ---- C13 / C11 / C08: the wire
 	negotiated := !stripped // both ends are this library: both advertise, unless the header is lost on the way
 	if !reverse {
-		vE2EWire(stub.fwd.upLog, stub.fwd.downLog, negotiated, rev1, event == 1 || event == 2)
+		vE2EWire(stub.fwd.upLog, stub.fwd.downLog, negotiated, rev1, event == 1 || event == 2 || event == 4)
 	} else {
-		vE2EWire(stub.rev.downLog, stub.rev.upLog, negotiated, rev1, event == 1 || event == 2)
+		vE2EWire(stub.rev.downLog, stub.rev.upLog, negotiated, rev1, event == 1 || event == 2 || event == 4)
 	}
 }
 
